@@ -1,7 +1,559 @@
 package main
 
-// Counterexample replay on the real code via `go test -overlay` (nothing is written to /repo).
+// Counterexample replay on the real code. The solver's model is turned into concrete Go
+// inputs; a generated in-package test (injected with `go test -overlay`, nothing is written to
+// /repo) calls the real function and compares what it returns (or whether it panics) with what
+// the verifier predicted for those inputs. Agreement means the real code produces exactly the
+// outputs for which the violated clause is false.
+
+import (
+	"bufio"
+	"encoding/json"
+	"fmt"
+	"go/types"
+	"io"
+	"os"
+	"os/exec"
+	"path/filepath"
+	"strconv"
+	"strings"
+	"time"
+
+	"golang.org/x/tools/go/ssa"
+)
+
+type modelSession struct {
+	cmd *exec.Cmd
+	in  io.WriteCloser
+	out *bufio.Reader
+}
+
+func newModelSession(body string, timeoutMs int) (*modelSession, Verdict) {
+	cmd := exec.Command(solverPath("z3-new"), "-in")
+	in, _ := cmd.StdinPipe()
+	outp, _ := cmd.StdoutPipe()
+	if err := cmd.Start(); err != nil {
+		return nil, Unknown
+	}
+	ms := &modelSession{cmd: cmd, in: in, out: bufio.NewReader(outp)}
+	fmt.Fprintf(in, "(set-option :timeout %d)\n(set-option :model.completion true)\n", timeoutMs)
+	io.WriteString(in, body)
+	io.WriteString(in, "(check-sat)\n")
+	line, err := ms.out.ReadString('\n')
+	if err != nil {
+		ms.close()
+		return nil, Unknown
+	}
+	switch strings.TrimSpace(line) {
+	case "sat":
+		return ms, Sat
+	case "unsat":
+		ms.close()
+		return nil, Unsat
+	}
+	ms.close()
+	return nil, Unknown
+}
+
+func (ms *modelSession) close() {
+	ms.in.Close()
+	ms.cmd.Process.Kill()
+	ms.cmd.Wait()
+}
+
+// value evaluates one term in the model; returns the printed value ("" on error).
+func (ms *modelSession) value(term string) string {
+	fmt.Fprintf(ms.in, "(get-value (%s))\n", term)
+	// read one balanced s-expression
+	depth := 0
+	var b strings.Builder
+	started := false
+	inStr := false
+	for {
+		c, err := ms.out.ReadByte()
+		if err != nil {
+			return ""
+		}
+		b.WriteByte(c)
+		if c == '"' {
+			inStr = !inStr
+		}
+		if inStr {
+			continue
+		}
+		if c == '(' {
+			depth++
+			started = true
+		} else if c == ')' {
+			depth--
+			if started && depth == 0 {
+				break
+			}
+		}
+	}
+	s := strings.TrimSpace(b.String())
+	if strings.HasPrefix(s, "(error") {
+		return ""
+	}
+	// ((term value))
+	s = strings.TrimSuffix(strings.TrimPrefix(s, "(("), "))")
+	// strip the echoed term: value is the last s-expression
+	return lastSexp(s)
+}
+
+func lastSexp(s string) string {
+	s = strings.TrimSpace(s)
+	if s == "" {
+		return ""
+	}
+	if s[len(s)-1] == ')' {
+		depth := 0
+		for i := len(s) - 1; i >= 0; i-- {
+			if s[i] == ')' {
+				depth++
+			} else if s[i] == '(' {
+				depth--
+				if depth == 0 {
+					return s[i:]
+				}
+			}
+		}
+		return s
+	}
+	if s[len(s)-1] == '"' {
+		for i := len(s) - 2; i >= 0; i-- {
+			if s[i] == '"' && (i == 0 || s[i-1] != '"') {
+				return s[i:]
+			}
+		}
+	}
+	i := strings.LastIndexAny(s, " \n\t")
+	return s[i+1:]
+}
+
+func parseSMTInt(v string) (int64, bool) {
+	v = strings.TrimSpace(v)
+	neg := false
+	if strings.HasPrefix(v, "(-") {
+		neg = true
+		v = strings.TrimSpace(strings.TrimSuffix(strings.TrimPrefix(v, "(-"), ")"))
+	}
+	u, err := strconv.ParseUint(v, 10, 64)
+	if err != nil {
+		return 0, false
+	}
+	if neg {
+		return -int64(u), true
+	}
+	return int64(u), true
+}
+
+func parseSMTBig(v string) (string, bool) {
+	v = strings.TrimSpace(v)
+	if strings.HasPrefix(v, "(-") {
+		inner := strings.TrimSpace(strings.TrimSuffix(strings.TrimPrefix(v, "(-"), ")"))
+		if _, err := strconv.ParseUint(inner, 10, 64); err != nil {
+			return "", false
+		}
+		return "-" + inner, true
+	}
+	if _, err := strconv.ParseUint(v, 10, 64); err != nil {
+		return "", false
+	}
+	return v, true
+}
+
+func parseSMTString(v string) (string, bool) {
+	v = strings.TrimSpace(v)
+	if len(v) < 2 || v[0] != '"' {
+		return "", false
+	}
+	body := v[1 : len(v)-1]
+	body = strings.ReplaceAll(body, `""`, `"`)
+	var out []byte
+	for i := 0; i < len(body); i++ {
+		if strings.HasPrefix(body[i:], `\u{`) {
+			j := strings.Index(body[i:], "}")
+			if j > 0 {
+				n, err := strconv.ParseUint(body[i+3:i+j], 16, 32)
+				if err == nil && n < 256 {
+					out = append(out, byte(n))
+					i += j
+					continue
+				}
+			}
+		}
+		out = append(out, body[i])
+	}
+	return string(out), true
+}
+
+// ---------- building Go inputs ----------
+
+type replayGen struct {
+	x       *Exec
+	ms      *modelSession
+	pkg     *types.Package
+	imports map[string]string // path -> name
+	pre     []string          // statements executed before the call
+	nvar    int
+	fail    string
+	decl    map[string]bool // SMT symbols declared in the VC
+}
+
+func (g *replayGen) qual(p *types.Package) string {
+	if p == g.pkg {
+		return ""
+	}
+	g.imports[p.Path()] = p.Name()
+	return p.Name()
+}
+
+func (g *replayGen) typeStr(t types.Type) string { return types.TypeString(t, g.qual) }
+
+func (g *replayGen) heapTerm(key, leafSort string) string {
+	name := "H0_" + g.x.heapSym(key)
+	if !g.decl[name] {
+		return ""
+	}
+	return name
+}
+
+func (g *replayGen) intLit(v string, t types.Type) string {
+	b, ok := parseSMTBig(v)
+	if !ok {
+		g.fail = "unparsable integer " + v
+		return "0"
+	}
+	return g.typeStr(t) + "(" + b + ")"
+}
+
+// valueOf renders the value of type t whose leaves are given as SMT terms.
+func (g *replayGen) valueOf(t types.Type, leaves []string, depth int) (string, int) {
+	if depth > 6 {
+		g.fail = "value too deep"
+		return "nil", len(flatten(t))
+	}
+	switch u := t.Underlying().(type) {
+	case *types.Basic:
+		v := g.ms.value(leaves[0])
+		switch {
+		case u.Info()&types.IsInteger != 0:
+			return g.intLit(v, t), 1
+		case u.Info()&types.IsBoolean != 0:
+			return g.typeStr(t) + "(" + v + ")", 1
+		case u.Info()&types.IsString != 0:
+			s, ok := parseSMTString(v)
+			if !ok {
+				g.fail = "unparsable string " + v
+			}
+			return g.typeStr(t) + "(" + strconv.Quote(s) + ")", 1
+		}
+		g.fail = "unsupported basic type " + t.String()
+		return "0", 1
+	case *types.Pointer:
+		ref, ok := parseSMTInt(g.ms.value(leaves[0]))
+		if !ok {
+			g.fail = "unparsable reference"
+			return "nil", 1
+		}
+		if ref == 0 {
+			return "nil", 1
+		}
+		return g.objectAt(u.Elem(), ref, depth), 1
+	case *types.Slice:
+		arr, _ := parseSMTInt(g.ms.value(leaves[0]))
+		off, _ := parseSMTInt(g.ms.value(leaves[1]))
+		n, _ := parseSMTInt(g.ms.value(leaves[2]))
+		c, _ := parseSMTInt(g.ms.value(leaves[3]))
+		if arr == 0 {
+			return "nil", 4
+		}
+		if n > 1<<16 || c > 1<<20 || n < 0 || c < n {
+			g.fail = fmt.Sprintf("slice too large to construct (len %d cap %d)", n, c)
+			return "nil", 4
+		}
+		els := flatten(u.Elem())
+		if len(els) != 1 || els[0].Sort != SInt {
+			g.fail = "slice of non-integer elements"
+			return "nil", 4
+		}
+		h := g.heapTerm("E|"+typeKey(u.Elem())+"|", SInt)
+		g.nvar++
+		name := fmt.Sprintf("s%d", g.nvar)
+		g.pre = append(g.pre, fmt.Sprintf("%s := make(%s, %d, %d)", name, g.typeStr(t), n, c))
+		if h != "" {
+			for i := int64(0); i < n; i++ {
+				v := g.ms.value(fmt.Sprintf("(select (select %s %d) %d)", h, arr, off+i))
+				if b, ok := parseSMTBig(v); ok && b != "0" {
+					g.pre = append(g.pre, fmt.Sprintf("%s[%d] = %s(%s)", name, i, g.typeStr(u.Elem()), b))
+				}
+			}
+		}
+		return name, 4
+	case *types.Struct:
+		var parts []string
+		k := 0
+		for i := 0; i < u.NumFields(); i++ {
+			f := u.Field(i)
+			nl := len(flatten(f.Type()))
+			if f.Name() == "_" {
+				k += nl
+				continue
+			}
+			if f.Pkg() != nil && f.Pkg() != g.pkg && !f.Exported() {
+				// unexported field of a foreign struct: cannot be set; leave zero
+				k += nl
+				continue
+			}
+			s, _ := g.valueOf(f.Type(), leaves[k:k+nl], depth+1)
+			parts = append(parts, f.Name()+": "+s)
+			k += nl
+		}
+		return g.typeStr(t) + "{" + strings.Join(parts, ", ") + "}", k
+	case *types.Interface:
+		tag, _ := parseSMTInt(g.ms.value(leaves[0]))
+		if tag == 0 {
+			return "nil", 2
+		}
+		g.fail = "non-nil interface input"
+		return "nil", 2
+	case *types.Map, *types.Chan, *types.Signature:
+		ref, _ := parseSMTInt(g.ms.value(leaves[0]))
+		if ref == 0 {
+			return "nil", 1
+		}
+		g.fail = "map/chan/func input"
+		return "nil", 1
+	case *types.Array:
+		var parts []string
+		k := 0
+		for i := 0; i < int(u.Len()); i++ {
+			nl := len(flatten(u.Elem()))
+			s, _ := g.valueOf(u.Elem(), leaves[k:k+nl], depth+1)
+			parts = append(parts, s)
+			k += nl
+		}
+		return g.typeStr(t) + "{" + strings.Join(parts, ", ") + "}", k
+	}
+	g.fail = "unsupported input type " + t.String()
+	return "nil", len(flatten(t))
+}
+
+// objectAt builds &T{...} from the entry heap at reference ref.
+func (g *replayGen) objectAt(elem types.Type, ref int64, depth int) string {
+	root := "F|" + typeKey(elem)
+	var leaves []string
+	for _, lf := range flatten(elem) {
+		h := g.heapTerm(root+"|"+lf.Path, lf.Sort)
+		if h == "" {
+			switch lf.Sort {
+			case SBool:
+				leaves = append(leaves, "false")
+			case SStr:
+				leaves = append(leaves, `""`)
+			default:
+				leaves = append(leaves, "0")
+			}
+			continue
+		}
+		leaves = append(leaves, fmt.Sprintf("(select %s %d)", h, ref))
+	}
+	if _, isStruct := elem.Underlying().(*types.Struct); isStruct {
+		s, _ := g.valueOf(elem, leaves, depth+1)
+		return "&" + s
+	}
+	s, _ := g.valueOf(elem, leaves, depth+1)
+	g.nvar++
+	name := fmt.Sprintf("p%d", g.nvar)
+	g.pre = append(g.pre, fmt.Sprintf("%s := %s", name, s))
+	return "&" + name
+}
+
+// ---------- the replay itself ----------
 
 func tryReplay(o *runOpts, fr *FuncResult, ob *Oblig, vals map[string]string) ReplayResult {
-	return ReplayResult{Attempted: false, Note: "generic replay not available for this function's inputs"}
+	con := fr.Contract
+	fn := con.Fn
+	if fn == nil || ob.X == nil {
+		return ReplayResult{Note: "no function to replay"}
+	}
+	if fn.Parent() != nil {
+		return ReplayResult{Note: "closures cannot be called from a test"}
+	}
+	body := obligBody(ob)
+	ms, v := newModelSession(body, 20000)
+	if v != Sat {
+		return ReplayResult{Note: "model could not be re-derived for replay (" + v.String() + ")"}
+	}
+	defer ms.close()
+	g := &replayGen{x: ob.X, ms: ms, pkg: fn.Pkg.Pkg, imports: map[string]string{}, decl: map[string]bool{}}
+	for _, e := range ob.PC.Entries() {
+		if e.Kind == 0 {
+			g.decl[e.Name] = true
+		}
+	}
+	// arguments
+	var args []string
+	k := 0
+	for _, p := range fn.Params {
+		nl := len(flatten(p.Type()))
+		var leaves []string
+		for _, iv := range ob.Inputs[k : k+nl] {
+			leaves = append(leaves, iv.Term)
+		}
+		s, _ := g.valueOf(p.Type(), leaves, 0)
+		args = append(args, s)
+		k += nl
+	}
+	if g.fail != "" {
+		return ReplayResult{Note: "inputs not constructible: " + g.fail}
+	}
+	// predicted outcome
+	wantPanic := ob.Kind == "safety"
+	var predicted []string
+	var compare []string
+	sig := fn.Signature
+	if !wantPanic {
+		res := sig.Results()
+		k := 0
+		for i := 0; i < res.Len(); i++ {
+			rt := res.At(i).Type()
+			nl := len(flatten(rt))
+			if k+nl > len(ob.Outputs) {
+				break
+			}
+			outs := ob.Outputs[k : k+nl]
+			k += nl
+			switch u := rt.Underlying().(type) {
+			case *types.Basic:
+				v := ms.value(outs[0].Term)
+				switch {
+				case u.Info()&types.IsInteger != 0:
+					if b, ok := parseSMTBig(v); ok {
+						predicted = append(predicted, fmt.Sprintf("result%d=%s", i, b))
+						compare = append(compare, fmt.Sprintf("if fmt.Sprint(r%d) != %q { diff = append(diff, fmt.Sprintf(\"result%d: real %%v, predicted %s\", r%d)) }", i, b, i, b, i))
+					}
+				case u.Info()&types.IsBoolean != 0:
+					predicted = append(predicted, fmt.Sprintf("result%d=%s", i, v))
+					compare = append(compare, fmt.Sprintf("if fmt.Sprint(r%d) != %q { diff = append(diff, fmt.Sprintf(\"result%d: real %%v, predicted %s\", r%d)) }", i, v, i, v, i))
+				case u.Info()&types.IsString != 0:
+					if s, ok := parseSMTString(v); ok {
+						predicted = append(predicted, fmt.Sprintf("result%d=%q", i, s))
+						compare = append(compare, fmt.Sprintf("if string(r%d) != %q { diff = append(diff, fmt.Sprintf(\"result%d: real %%q, predicted %%q\", r%d, %q)) }", i, s, i, i, s))
+					}
+				}
+			case *types.Interface:
+				tag, ok := parseSMTInt(ms.value(outs[0].Term))
+				if ok {
+					isNil := tag == 0
+					predicted = append(predicted, fmt.Sprintf("result%d==nil:%v", i, isNil))
+					compare = append(compare, fmt.Sprintf("if (r%d == nil) != %v { diff = append(diff, fmt.Sprintf(\"result%d: real %%v, predicted nil=%v\", r%d)) }", i, isNil, i, isNil, i))
+				}
+			case *types.Pointer, *types.Slice, *types.Map:
+				ref, ok := parseSMTInt(ms.value(outs[0].Term))
+				if ok {
+					isNil := ref == 0
+					predicted = append(predicted, fmt.Sprintf("result%d==nil:%v", i, isNil))
+					compare = append(compare, fmt.Sprintf("if (r%d == nil) != %v { diff = append(diff, fmt.Sprintf(\"result%d: real nil=%%v, predicted nil=%v\", r%d == nil)) }", i, isNil, i, isNil, i))
+				}
+			}
+		}
+	}
+	// the call expression
+	var call string
+	var rs []string
+	for i := 0; i < sig.Results().Len(); i++ {
+		rs = append(rs, fmt.Sprintf("r%d", i))
+	}
+	lhs := ""
+	if len(rs) > 0 {
+		lhs = strings.Join(rs, ", ") + " := "
+	}
+	if sig.Recv() != nil {
+		call = fmt.Sprintf("%s(%s).%s(%s)", lhs, args[0], fn.Name(), strings.Join(args[1:], ", "))
+		if _, isPtr := sig.Recv().Type().(*types.Pointer); isPtr {
+			call = fmt.Sprintf("recv := %s\n\t%srecv.%s(%s)", args[0], lhs, fn.Name(), strings.Join(args[1:], ", "))
+		}
+	} else {
+		call = fmt.Sprintf("%s%s(%s)", lhs, fn.Name(), strings.Join(args, ", "))
+	}
+	var use []string
+	for _, r := range rs {
+		use = append(use, "_ = "+r)
+	}
+	// test source
+	var src strings.Builder
+	fmt.Fprintf(&src, "package %s\n\nimport (\n\t\"fmt\"\n\t\"testing\"\n", fn.Pkg.Pkg.Name())
+	for p, n := range g.imports {
+		fmt.Fprintf(&src, "\t%s %q\n", n, p)
+	}
+	fmt.Fprintf(&src, ")\n\nvar _ = fmt.Sprint\n\n// generated by gcv: replay of obligation %s\nfunc TestGcvReplay(t *testing.T) {\n", ob.Name)
+	fmt.Fprintf(&src, "\tvar diff []string\n\tpanicked := false\n\tfunc() {\n\t\tdefer func() {\n\t\t\tif r := recover(); r != nil {\n\t\t\t\tpanicked = true\n\t\t\t\tfmt.Println(\"GCV-REPLAY panic:\", r)\n\t\t\t}\n\t\t}()\n")
+	for _, p := range g.pre {
+		fmt.Fprintf(&src, "\t\t%s\n", p)
+	}
+	fmt.Fprintf(&src, "\t\t%s\n", strings.ReplaceAll(call, "\n\t", "\n\t\t"))
+	for _, u := range use {
+		fmt.Fprintf(&src, "\t\t%s\n", u)
+	}
+	for _, c := range compare {
+		fmt.Fprintf(&src, "\t\t%s\n", c)
+	}
+	fmt.Fprintf(&src, "\t}()\n")
+	if wantPanic {
+		fmt.Fprintf(&src, "\tif panicked {\n\t\tfmt.Println(\"GCV-REPLAY: reproduced (real code panics on the model's inputs)\")\n\t} else {\n\t\tfmt.Println(\"GCV-REPLAY: not reproduced (no panic)\")\n\t}\n}\n")
+	} else {
+		fmt.Fprintf(&src, "\tif panicked {\n\t\tfmt.Println(\"GCV-REPLAY: not reproduced (unexpected panic)\")\n\t} else if len(diff) == 0 {\n\t\tfmt.Println(\"GCV-REPLAY: reproduced (real code returns the predicted, clause-violating outputs)\")\n\t} else {\n\t\tfmt.Println(\"GCV-REPLAY: not reproduced:\", diff)\n\t}\n}\n")
+	}
+	// run through an overlay
+	scratch, err := os.MkdirTemp("", "gcv-replay-")
+	if err != nil {
+		return ReplayResult{Note: "cannot create scratch dir"}
+	}
+	defer os.RemoveAll(scratch)
+	testSrc := filepath.Join(scratch, "zz_gcv_replay_test.go")
+	os.WriteFile(testSrc, []byte(src.String()), 0o644)
+	pkgDir := filepath.Join(o.repo, strings.TrimPrefix(fn.Pkg.Pkg.Path(), strings.TrimSuffix(modPath, "/")+"/"))
+	ov := map[string]map[string]string{"Replace": {filepath.Join(pkgDir, "zz_gcv_replay_test.go"): testSrc}}
+	for f, data := range o.overlay {
+		p := filepath.Join(scratch, fmt.Sprintf("ov%d.go", len(ov["Replace"])))
+		os.WriteFile(p, data, 0o644)
+		ov["Replace"][f] = p
+	}
+	ovData, _ := json.Marshal(ov)
+	ovFile := filepath.Join(scratch, "overlay.json")
+	os.WriteFile(ovFile, ovData, 0o644)
+	tags := fr.Tags
+	cmd := exec.Command("go", "test", "-overlay", ovFile, "-tags", tags, "-vet=off", "-count=1", "-timeout", "60s", "-run", "^TestGcvReplay$", "-v", ".")
+	cmd.Dir = pkgDir
+	cmd.Env = append(os.Environ(), "GOFLAGS=-mod=mod", "GOPROXY=off", "GOSUMDB=off", "GOTOOLCHAIN=local")
+	done := make(chan struct{})
+	var out []byte
+	go func() { out, _ = cmd.CombinedOutput(); close(done) }()
+	select {
+	case <-done:
+	case <-time.After(8 * time.Minute):
+		cmd.Process.Kill()
+		<-done
+	}
+	txt := string(out)
+	res := ReplayResult{Attempted: true, TestFile: src.String(), Note: "predicted: " + strings.Join(predicted, " ")}
+	for _, l := range strings.Split(txt, "\n") {
+		if strings.HasPrefix(l, "GCV-REPLAY") {
+			res.Output += l + "\n"
+			if strings.HasPrefix(l, "GCV-REPLAY: reproduced") {
+				res.Reproduced = true
+			}
+		}
+	}
+	if res.Output == "" {
+		if len(txt) > 3000 {
+			txt = txt[len(txt)-3000:]
+		}
+		res.Output = txt
+	}
+	return res
 }
+
+var _ *ssa.Function
